@@ -156,6 +156,21 @@ def h_two_bags(ctx, opts1, opts2, order, strict=None):
     p, q, r = SC(ORD, ctx.bitstr('p', 5), []), SC(ORD, ctx.bitstr('q', 6), [leaf2]), SC(ORD, ctx.bitstr('r', 3), [])
     a = warm(SC(ORD, ctx.bitstr('a', 8), [x, p]))
     b = warm(SC(ORD, ctx.bitstr('b', 8), [q, r, x]))
+    if order.startswith('same'):
+        # X is the first reference of both roots (same index in both bags); its child Y is pushed further back in the second bag
+        # only, because B refers to Y as well.  With 'same_big' the second bag has more than 255 cells, so the width of the
+        # reference indexes differs between the two bags as well
+        y = SC(ORD, ctx.bitstr('y', 7), [])
+        x = SC(ORD, ctx.bitstr('x', 13), [y])
+        bkids = [y]
+        if order == 'same_big':
+            c = None
+            for i in range(300):
+                c = SC(ORD, format(i, '016b'), [c] if c is not None else [])
+            bkids = [y, c]
+        bb = SC(ORD, ctx.bitstr('q', 6), bkids)
+        a = warm(SC(ORD, ctx.bitstr('a', 8), [x, p]))
+        b = warm(SC(ORD, ctx.bitstr('b', 8), [x, bb]))
     real = {}
 
     def mk(sc):
@@ -167,16 +182,19 @@ def h_two_bags(ctx, opts1, opts2, order, strict=None):
         return real[id(sc)]
     ra, rb, rx = mk(a), mk(b), mk(x)
     crc = install_crc_stub(ctx)
+    plans = {'ab': [(ra, a, opts1), (rb, b, opts2), (ra, a, opts2)], 'ba': [(rb, b, opts1), (ra, a, opts2), (rb, b, opts1)],
+             'xab': [(rx, x, opts1), (ra, a, opts1), (rb, b, opts2), (rx, x, opts2)]}
+    plans['same'] = plans['same_big'] = [(ra, a, opts1), (rb, b, opts2), (ra, a, opts1), (rb, b, opts1)]
+    plans['same_rev'] = [(rb, b, opts1), (ra, a, opts2), (rb, b, opts1)]
     if strict is not None:
-        return {'ab': [(ra, a, opts1), (rb, b, opts2), (ra, a, opts2)], 'ba': [(rb, b, opts1), (ra, a, opts2), (rb, b, opts1)],
-                'xab': [(rx, x, opts1), (ra, a, opts1), (rb, b, opts2), (rx, x, opts2)]}[order], crc
-    todo = {'ab': [(ra, a, opts1), (rb, b, opts2), (ra, a, opts2)], 'ba': [(rb, b, opts1), (ra, a, opts2), (rb, b, opts1)],
-            'xab': [(rx, x, opts1), (ra, a, opts1), (rb, b, opts2), (rx, x, opts2)]}[order]
+        return plans[order], crc
+    todo = plans[order]
     for root, sc, o in todo:
         boc = root.to_boc(**o)
         got = Cell.one_from_boc(boc)
         ctx.require(got.hash == cell_hash(sc, 3), 'several bags over shared cell objects: parsed root has the specification hash')
-        ctx.require(same_structure(ctx, got, sc, 'root'), 'several bags over shared cell objects: identical structure')
+        ctx.require(same_structure(ctx, got, sc, 'root') if order != 'same_big' else got.refs[0].refs[0].bits.to01() == sc.refs[0].refs[0].bits,
+                    'several bags over shared cell objects: identical structure')
 
 
 SMALL = None
@@ -226,7 +244,7 @@ def instances(tier, seed):
             yield 'h_roundtrip', dict(shape=[[1, 2, 3, 4], [], [], [], []], opts=o, lens=[n0, 3, 0, 9, 1022], entry=entry, form=form)
             yield 'h_roundtrip', dict(shape=[[1], [2, 3, 4, 5], [], [], [], []], opts=o, lens=[6, n0, 1, 1023, 8, 2], entry=entry, form=form)
     # the same cell objects in several bags
-    for order in ('ab', 'ba', 'xab'):
+    for order in ('ab', 'ba', 'xab', 'same', 'same_rev', 'same_big'):
         for o1, o2 in ((OPTIONS[0], OPTIONS[0]), (OPTIONS[0], OPTIONS[5]), (OPTIONS[3], OPTIONS[1])):
             yield 'h_two_bags', dict(opts1=o1, opts2=o2, order=order)
     # exotic cells
